@@ -138,9 +138,10 @@ func (d Duty) String() string {
 // Verdict is the classification of a byte stream.
 type Verdict struct {
 	Duty    Duty
-	Class   string // shape of the header, e.g. "v1-tcp4", "v2-proxy-inet6-tlv", "v2-local"
-	Reason  string // for Malformed / Ambiguous: which rule
-	HdrLen  int    // bytes that belong to the header (Advertised, Real, Fallback)
+	Class   string   // shape of the header, e.g. "v1-tcp4", "v2-proxy-inet6-tlv", "v2-local"
+	Reason  string   // for Malformed / Ambiguous: which rule (the first one broken)
+	Reasons []string // Malformed: every rule the header breaks
+	HdrLen  int      // bytes that belong to the header (Advertised, Real, Fallback)
 	Src     netip.AddrPort
 	Dst     netip.AddrPort
 	HasAddr bool // Src/Dst meaningful (Advertised, or Fallback with INET/INET6)
@@ -239,7 +240,7 @@ func Classify(stream []byte) Verdict {
 }
 
 func classifyV1(stream []byte) Verdict {
-	bad := func(r string) Verdict { return Verdict{Duty: Malformed, Class: "v1", Reason: r} }
+	bad := func(r string) Verdict { return Verdict{Duty: Malformed, Class: "v1", Reason: r, Reasons: []string{r}} }
 	i := bytes.Index(stream, []byte("\r\n"))
 	lf := bytes.IndexByte(stream, '\n')
 	if i < 0 {
@@ -275,46 +276,66 @@ func classifyV1(stream []byte) Verdict {
 		return Verdict{Duty: Ambiguous, Class: "v1", Reason: "line-longer-than-107"}
 	}
 	f := strings.Split(rest, " ")
+	// collect every rule the line breaks (fields are judged by position as far as they exist)
+	var reasons []string
+	amb := false
+	add := func(r string) {
+		for _, x := range reasons {
+			if x == r {
+				return
+			}
+		}
+		reasons = append(reasons, r)
+	}
 	if f[0] != "TCP4" && f[0] != "TCP6" {
-		return bad("v1-unknown-proto-token")
+		add("v1-unknown-proto-token")
 	}
 	if len(f) < 5 {
-		return bad("v1-missing-field")
+		add("v1-missing-field")
 	}
 	if len(f) > 5 {
-		return bad("v1-extra-field-or-space")
+		add("v1-extra-field-or-space")
 	}
 	var src, dst netip.Addr
-	var ok bool
-	if f[0] == "TCP4" {
-		if src, ok = strictIPv4(f[1]); !ok {
-			return bad("v1-bad-ipv4")
+	addr := func(i int) netip.Addr {
+		if i >= len(f) {
+			return netip.Addr{}
 		}
-		if dst, ok = strictIPv4(f[2]); !ok {
-			return bad("v1-bad-ipv4")
-		}
-	} else {
-		var amb bool
-		if src, ok, amb = strictIPv6(f[1]); !ok {
-			if amb {
-				return Verdict{Duty: Ambiguous, Class: "v1-tcp6", Reason: "embedded-ipv4-notation"}
+		if f[0] == "TCP4" {
+			a, ok := strictIPv4(f[i])
+			if !ok {
+				add("v1-bad-ipv4")
 			}
-			return bad("v1-bad-ipv6")
+			return a
 		}
-		if dst, ok, amb = strictIPv6(f[2]); !ok {
-			if amb {
-				return Verdict{Duty: Ambiguous, Class: "v1-tcp6", Reason: "embedded-ipv4-notation"}
+		a, ok, am := strictIPv6(f[i])
+		if !ok {
+			if am {
+				amb = true
+			} else {
+				add("v1-bad-ipv6")
 			}
-			return bad("v1-bad-ipv6")
 		}
+		return a
 	}
-	sp, ok := strictPort(f[3])
-	if !ok {
-		return bad("v1-bad-port")
+	src, dst = addr(1), addr(2)
+	var sp, dp uint16
+	port := func(i int) uint16 {
+		if i >= len(f) {
+			return 0
+		}
+		p, ok := strictPort(f[i])
+		if !ok {
+			add("v1-bad-port")
+		}
+		return p
 	}
-	dp, ok := strictPort(f[4])
-	if !ok {
-		return bad("v1-bad-port")
+	sp, dp = port(3), port(4)
+	if len(reasons) > 0 {
+		return Verdict{Duty: Malformed, Class: "v1", Reason: reasons[0], Reasons: reasons}
+	}
+	if amb {
+		return Verdict{Duty: Ambiguous, Class: "v1-tcp6", Reason: "embedded-ipv4-notation"}
 	}
 	cl := "v1-" + strings.ToLower(f[0])
 	if f[0] == "TCP6" && (src.Is4In6() || dst.Is4In6()) {
@@ -325,7 +346,7 @@ func classifyV1(stream []byte) Verdict {
 }
 
 func classifyV2(stream []byte) Verdict {
-	bad := func(r string) Verdict { return Verdict{Duty: Malformed, Class: "v2", Reason: r} }
+	bad := func(r string) Verdict { return Verdict{Duty: Malformed, Class: "v2", Reason: r, Reasons: []string{r}} }
 	if len(stream) < 16 {
 		if len(stream) >= 13 && stream[12] == 0x20 {
 			return bad("v2-local-truncated-fixed-part")
